@@ -823,3 +823,21 @@ Example w_delchild_valid : valid w_delchild /\ oracle w_delchild (run w_delchild
 Proof. split; [valid_case | vm_compute; reflexivity]. Qed.
 Example w_alloc_fixed : valid w_alloc /\ run w_alloc = 0 :: N1 6 :: 1 :: skipn 3 (run w_alloc).
 Proof. split; [valid_case | vm_compute; reflexivity]. Qed.
+
+(* the hypotheses of the per-item theorems are satisfiable: a Good AddNodes item, a Bad one, a
+   server-assigned id drawn across the u32 wrap-around *)
+Example ex_add_good :
+  let s := init_state w_dir in
+  let r := add_node fixed_cfg 2 true s (AN 85 0 35 0 0 0 10 1 1 true false 58) in
+  1 <= 2 /\ Z.of_nat (length (nodes s)) < U32 /\ r_status r = 0 /\ r_id r = N1 1000.
+Proof. cbv zeta. repeat split; try lia; vm_compute; reflexivity. Qed.
+Example ex_add_bad :
+  let s := init_state w_dir in
+  r_status (add_node fixed_cfg 2 true s (AN 77 0 35 0 0 0 10 1 1 true false 58)) = 9.
+Proof. vm_compute. reflexivity. Qed.
+Example ex_alloc_wrap :
+  let ns := w_nodes ++ [mk_node (N1 4294967295) 1 0 7; mk_node (N1 0) 1 0 8] in
+  alloc (length ns) ns 4294967295 = (N1 1, 4294967298).
+Proof. vm_compute. reflexivity. Qed.
+Example ex_history_nontrivial : length (history 2 true (init_state w_delchild) (c_reqs w_delchild)) = 5%nat.
+Proof. vm_compute. reflexivity. Qed.
